@@ -309,7 +309,8 @@ func (fc *FnCtx) finishExit(st *State, panicking bool, ord int, scopePos token.P
 	if c == nil {
 		return
 	}
-	env := fc.newSpecEnv(ns, fc.entry, scopePos)
+	// postconditions may name the function's top-level locals (their value at the exit)
+	env := fc.newSpecEnv(ns, fc.entry, fc.decl.Body.Rbrace)
 	fc.bindParamsOld(env)
 	for i := 0; i < sig.Results().Len() && i < len(results); i++ {
 		r := sig.Results().At(i)
@@ -401,7 +402,7 @@ func (fc *FnCtx) useLemma(st *State, u *Clause, scopePos token.Pos) {
 	fc.lemmasUsed[lm.Name] = true
 	fc.curOnly = u.Only
 	defer func() { fc.curOnly = "" }()
-	env := fc.newSpecEnv(st, fc.entry, scopePos)
+	env := fc.newSpecEnv(st, fc.oldState(), scopePos)
 	if len(e.Args) != len(lm.Params) {
 		fc.fail(token.NoPos, "use %s: wrong number of arguments", lm.Name)
 	}
